@@ -31,7 +31,7 @@ STUB_COMPONENTS = ["leaf processors (svsim.lib)", "RecordingExecutor", "SimClock
 ASSUMPTIONS = ["volatile fields are exactly: run_id (header and identity.run_id), timestamp, timing.started_at, "
                "timing.finished_at, timing.wall_ms, timing.cpu_ms, seq - nothing else is removed before comparing"]
 REQUIRED_PROBES = ["reused_pipeline_second_traced_run", "reused_pipeline_with_sweep", "failing_subject", "history_contains_other_config",
-                   "result_object_fed_back", "other_process_other_hashseed", "cli_launch_repeated_with_same_launch_id", "concurrent_first_traced_runs_in_fresh_interpreter", "orchestrator_shared_with_sibling_config", "stochastic_processor_with_seeded_global_prng", "equal_but_differently_typed_context_values_in_history", "configuration_with_two_defects"]
+                   "result_object_fed_back", "other_process_other_hashseed", "cli_launch_repeated_with_same_launch_id", "concurrent_first_traced_runs_in_fresh_interpreter", "orchestrator_shared_with_sibling_config", "stochastic_processor_with_seeded_global_prng", "equal_but_differently_typed_context_values_in_history", "configuration_with_two_defects", "non_json_value_appended_in_place_to_a_context_list"]
 CONFIG = {
     "quick": {"runs": 2000, "budget_s": 240, "timeout_s": 120},
     "thorough": {"runs": 60000, "budget_s": 1500, "timeout_s": 120},
@@ -64,6 +64,12 @@ def generate(rng: random.Random, tier: str, seed: int) -> dict:
         # a stochastic processor drawing from the global `random` generator; the caller seeds it before every run
         subject = dict(subject, nodes=subject["nodes"] + [{"processor": "SvJitter", "parameters": {"scale": 2.0}}])
         py_seed = rng.getrandbits(32)
+    if fail is None and py_seed is None and a["truth"][-1]["out"] == "float" and rng.random() < 0.06:
+        # a node that appends a value JSON cannot encode, in place, to a list it received from the context
+        subject = dict(subject, nodes=subject["nodes"] + [{"processor": "SvAppendInPlace"}], context=dict(subject["context"], acc=[]))
+        in_place = True
+    else:
+        in_place = False
     b = gen.gen_pipeline(rng)
     equal_values = fail is None and py_seed is None and rng.random() < 0.06
     if equal_values:
@@ -107,7 +113,7 @@ def generate(rng: random.Random, tier: str, seed: int) -> dict:
         if (rng.random() < 0.08 and not subject.get("faults") and py_seed is None) else None    # (a shared global PRNG drawn from by two threads is not reproducible by definition)
     if equal_values:
         hs = hs or rng.choice([1, 2, 3])
-    return {"equal_values": equal_values, "py_seed": py_seed, "variant": variant, "concurrent": concurrent, "A": subject, "B": dict(b, faults=[]), "ops": ops, "fail": fail, "A_truth": a.get("truth"), "remote_exec": rng.random() < 0.25,
+    return {"in_place_append": in_place, "equal_values": equal_values, "py_seed": py_seed, "variant": variant, "concurrent": concurrent, "A": subject, "B": dict(b, faults=[]), "ops": ops, "fail": fail, "A_truth": a.get("truth"), "remote_exec": rng.random() < 0.25,
             "hashseed": hs, "cli_pair": cli_pair}
 
 
@@ -349,6 +355,8 @@ def execute(sc: dict, seed: int) -> dict:
             else:
                 recs, _ = harness.parse_lines(rr["emissions"])
                 a_traced.setdefault(detail, []).append((i, how, ok, normalize(recs)))
+        if sc.get("in_place_append"):
+            stats["probe.non_json_value_appended_in_place_to_a_context_list"] = 1
         if sc.get("equal_values"):
             stats["probe.equal_but_differently_typed_context_values_in_history"] = 1
         if sc.get("py_seed") is not None:
